@@ -1,7 +1,7 @@
 """C20 — secondary format writers emit files their own readers reproduce (E1, CrossHair).
 
 cmdseq (Hammer command sequences), choreo (scenes.image container, binary BVCD scenes, text VCD),
-sndscript, vmt, smd: reader(writer(v)) == v compared field by field, and writer(reader(writer(v))) identical.
+sndscript, vmt, smd, particles: reader(writer(v)) == v compared field by field, and writer(reader(writer(v))) identical.
 """
 from __future__ import annotations
 
@@ -25,14 +25,46 @@ META = {
         "srctools.choreo:FlexAnimTrack.export_binary", "srctools.choreo:FlexAnimTrack.parse_binary",
         "srctools.choreo:Scene.used_sounds", "srctools.choreo:Scene.duration",
         "srctools.binformat:read_offset_array", "srctools.binformat:read_nullstr", "srctools.binformat:DeferredWrites.write",
+        # text formats (extension)
+        "srctools.choreo:Scene.export_text", "srctools.choreo:Scene.parse_text", "srctools.choreo:Event.export_text",
+        "srctools.choreo:Event.parse_text", "srctools.choreo:Actor.export_text", "srctools.choreo:Actor.parse_text",
+        "srctools.choreo:Channel.export_text", "srctools.choreo:Channel.parse_text", "srctools.choreo:Tag.export_text",
+        "srctools.choreo:Tag.parse_text", "srctools.choreo:Curve.export_text", "srctools.choreo:Curve.parse_text",
+        "srctools.choreo:CurveEdge.parse_text", "srctools.choreo:CurveType.parse_text",
+        "srctools.sndscript:Sound.export", "srctools.sndscript:Sound.parse", "srctools.sndscript:Sound.parse_one",
+        "srctools.sndscript:parse_split_float", "srctools.sndscript:split_float", "srctools.sndscript:join_float",
+        "srctools.vmt:Material.export", "srctools.vmt:Material.parse", "srctools.vmt:Material._parse_block",
+        "srctools.vmt:Material.__setitem__", "srctools.vmt:Material.__getitem__",
+        "srctools.smd:Mesh.export", "srctools.smd:Mesh.parse_smd", "srctools.smd:Mesh._parse_smd_bones",
+        "srctools.smd:Mesh._parse_smd_anim", "srctools.smd:Mesh._parse_smd_tri", "srctools.smd:_clean_file",
+        "srctools.particles:Particle.export", "srctools.particles:Particle.parse",
+        "srctools.keyvalues:Keyvalues.parse", "srctools.keyvalues:Keyvalues._serialise", "srctools.tokenizer:Tokenizer._get_token",
+        "srctools.tokenizer:escape_text", "srctools.dmx:Element.export_binary", "srctools.dmx:Element.parse",
     ],
     "bounds": "cmdseq: field lemma for every ASCII non-NUL string of exact length 0,1,2,W-1,W (W=128,260; all characters symbolic) "
               "and whole files of 2 sequences / 0-3 commands with one fully symbolic command (3 flags, ensure-file presence, "
               "SpecialCommand by index, symbolic string tails in fields of total length 0/1/259/260), 5 sequence names incl. "
               "lengths 127/128; scenes.image: versions 2 and 3, 0-3 entries in both insertion orders, two symbolic latin-1 strings "
               "(exact length 1; thorough 0-3) in 7 slot layouts, file names concrete; binary scenes: one event of each of the 19 "
-              "kinds, optional blocks and flags in three groups, one symbolic pool string",
-    "outside": "choreo text VCD, sndscript, vmt, particles (PCF) and smd round trips (not built in this round); the sample files "
+              "kinds, optional blocks and flags in three groups, one symbolic pool string; "
+              "text VCD: 19 event kinds x relative tag x ramp/edges, caption type x 3 speak flags, 6 activity/switch bits, one symbolic "
+              "string (every code point, exact length 0-1; 2 thorough) in each of 16 slots, 3 scale-setting keys by slice; "
+              "soundscripts: 2 sounds per file, name / wave / operator-stack leaf symbolic (every code point, exact length 0-2), channel, "
+              "level, volume, pitch by index one dimension at a time, 0-3 waves, force_v2 and 3 stacks symbolic, two reader modes; "
+              "VMT: shader / one parameter value / one block+proxy leaf symbolic (every code point, length 0-1; 2 thorough), parameter "
+              "name empty (quick) or 1 ASCII character (thorough), optional nested fallback block and proxies; "
+              "SMD: 3 bones, 1/3 frames, 0/2 triangles, 1-2 links per vertex, material name symbolic printable ASCII length 1-2 (4 thorough); "
+              "PCF: 3 systems, 0/7 operators, 4 child-reference bits, function name and a string option symbolic in the element route, "
+              "binary DMX v2/v5 (1-5 thorough) by index",
+    "outside": "choreo flex-animation tracks in text (Event.parse_text raises NotImplementedError for 'flexanimations': TODO in the source), "
+               "Event.default_curve_type, text_crc and time_zoom_lookup (not stored in text), event ramps with edges but no samples (not "
+               "written); soundscript/VMT strings containing a double quote or CR, sound names with LF (the raw formats cannot carry them), "
+               "symbolic sound names through Sound.parse's dict (parse_one is used; Sound.parse with concrete names), 'attenuation' keys; "
+               "VMT parameter names beyond one ASCII character, shader starting with a BOM, Patch materials; SMD material names with "
+               "space/control characters, '#', ';', '.', '//', a trailing slash or equal to 'end' (a line-oriented format without quoting "
+               "cannot carry them), bone names as symbolic strings (Bone.__hash__/dict keys: 5 names by index), non-zero rotations "
+               "(radians at 6 decimals), weights of single links; PCF through binary DMX with symbolic strings (C14 covers the DMX codec), "
+               "element UUIDs (fresh per export; second generation compared structurally), the 'name' pseudo-option; the sample files "
                "under tests/; strings longer than the bound; float continuum and 1-byte quantisation (values are exact representatives); "
                "LZMA/CRC of symbolic payloads; sequence names as symbolic strings in whole files (dict keys; covered by the field lemma); "
                "cmdseq files of format version < 0.2",
@@ -43,11 +75,19 @@ META = {
               "srctools.binformat.find_or_insert -> association-list twin (a dict hashes, i.e. realises, symbolic strings); compared "
               "with the real function on every start",
               "crosshair BytesLike.__contains__ -> find(x) != -1 (engine tweak; the inherited one realises)",
-              "sys.intern -> identity, BARE_DISALLOWED -> tuple, casefold fast path (vf.stubs.common.text_stubs)"],
+              "sys.intern -> identity, BARE_DISALLOWED -> tuple, casefold fast path (vf.stubs.common.text_stubs); srctools.vmt.BARE_DISALLOWED "
+              "(imported by value) -> the same tuple",
+              "srctools.choreo.float/int, srctools.float/int -> vf.stubs.floatstub shims (exact float(text)/int(text) on a de-proxied piece whose "
+              "digits are concrete; CrossHair would return a fresh symbol and cap the verdict)",
+              "Material._params -> AssocDict in a harness subclass of Material (real __init__/__setitem__/parse/export run; a dict would hash the "
+              "folded symbolic name); AssocDict compared with dict on every start"],
     "trusted_base": ["crosshair-tool 0.0.110 (symbolic str/bytes/int models, ascii and latin-1 codecs)", "z3", "vf/chx.py",
                      "vf/stubs/binio.py (ModelBytesIO, ModelStruct; validated against io.BytesIO / struct.Struct on every start)"],
     "assumptions": ["little-endian host", "floats are concrete, exactly representable constants (float32 for binary scenes)",
-                    "LZMA and CRC32 only ever see concrete bytes (scene payloads hold pool indexes, not strings; file names are concrete)"],
+                    "LZMA and CRC32 only ever see concrete bytes (scene payloads hold pool indexes, not strings; file names are concrete)",
+                    "soundscript files are read with Keyvalues.parse(allow_escapes=False) as srctools.packlist does (obligation "
+                    "snd.escaped_reader: the default reader); VCD files with Tokenizer defaults as scripts/build_scenes_image.py does",
+                    "a binary file iterates as LF-terminated lines (harness line splitter for SMD)"],
 }
 
 _ENGINE = "native"
@@ -66,6 +106,9 @@ def setup(engine):
         import srctools.tokenizer as tk
         import srctools.vmt as vmt
         vmt.BARE_DISALLOWED = tk.BARE_DISALLOWED        # vmt imported the frozenset by value; text_stubs() made it a tuple
+        from vf.stubs.floatstub import stub_float, stub_int
+        stub_float(("srctools.choreo", "srctools"))     # float(text)/int(text) on a piece that also holds a symbolic string:
+        stub_int(("srctools.choreo", "srctools"))       # exact on the de-proxied (all-concrete) digits instead of a fresh symbol
         binio.enable_symbolic()
         import srctools.cmdseq as cs
         cs.ST_COMMAND = binio.ModelStruct(cs.ST_COMMAND.format)
@@ -855,9 +898,12 @@ def h_vcd(s: str, active: bool, chan_active: bool, ignore_ph: bool, snap: bool, 
     One symbolic string (every code point, exact length) in the slot named by `slot`."""
     import srctools.choreo as ch
     from srctools.tokenizer import Tokenizer
-    assume(len(s) == n)
+    s = _slot(s, n, None)
     assume(0 <= etype < 19 and 0 <= cap < 3)
-    if mode == "kinds":        # event kind x relative tag x event ramp (with edges)
+    if mode == "str":          # the symbolic string in one slot of a fixed, fully populated skeleton
+        assume(etype == (5 if slot == "cc_token" else 3) and has_tag and has_ramp and edge and locked and cap == 0)
+        assume(active and chan_active and not ignore_ph and not snap and not comb and not gender and not supp)
+    elif mode == "kinds":      # event kind x relative tag x event ramp (with edges)
         assume(active and chan_active and not ignore_ph and not snap and not comb and not gender and not supp and not locked and cap == 0)
     elif mode == "speak":      # caption type x speak flags
         assume(etype == 5 and active and chan_active and not ignore_ph and not snap and not has_tag and has_ramp and not edge and not locked)
@@ -868,7 +914,8 @@ def h_vcd(s: str, active: bool, chan_active: bool, ignore_ph: bool, snap: bool, 
     v.update(ev_name="look at", param="!player", param2="", param3="", actor="Alyx", channel="audio", faceposer="", map_name="",
              tag="rel", timing_tag="tim", abs_tag="abs", cc_token="cc.tok", scale_val="100", rel_tag="tag", rel_wav="wav.wav",
              chan_ev_name="e2")
-    v[slot] = s
+    if s is not None:
+        v[slot] = s
     et = pick(list(ch.EventType), etype)
     ctype = ch.CurveType(ch.Interpolation.HOLD, ch.Interpolation.EASE_IN)
     ramp = ch.Curve([ch.ExpressionSample(0.5, 1.0), ch.ExpressionSample(1.0, 0.25, ctype)] if has_ramp else [],
@@ -921,6 +968,225 @@ def h_vcd_witness(s: str, active: bool, chan_active: bool, ignore_ph: bool, snap
 
 
 # ------------------------------------------------------------------------------------------------------------
+# SMD meshes
+# ------------------------------------------------------------------------------------------------------------
+
+SMD_BONES = ["root", "Bip01 Spine", "ValveBiped.Bip01_L_Hand", "a'b", "", "x.y{z}"]
+
+
+def _byte_lines(pieces):
+    """The written pieces as a binary file iterates them: lines ending in LF.  Concrete pieces are split natively; the one
+    symbolic piece (material name + LF; LF inside the name is excluded by precondition) is a line end by construction."""
+    lines, cur = [], []
+    for p in pieces:
+        if _concrete_bytes(p):
+            parts = p.split(b"\n")
+            for seg in parts[:-1]:
+                cur.append(seg + b"\n")
+                lines.append(b"".join(cur) if len(cur) > 1 else cur[0])
+                cur = []
+            if parts[-1]:
+                cur.append(parts[-1])
+        else:
+            cur.append(p)
+            lines.append(cur[0] if len(cur) == 1 else _cat(cur))
+            cur = []
+    if cur:
+        lines.append(b"".join(cur))
+    return lines
+
+
+def _cat(parts):
+    out = parts[0]
+    for x in parts[1:]:
+        out = out + x
+    return out
+
+
+def _concrete_bytes(b):
+    if _ENGINE != "chx":
+        return True
+    from crosshair.tracers import NoTracing
+    with NoTracing():
+        return type(b) is bytes
+
+
+def h_smd(mat: str, multi: bool, has_tri: bool, two_frames: bool, bone_i: int, n: int) -> None:
+    """Mesh.export -> Mesh.parse_smd reproduces bones (names, parents), animation frames and triangles (material, positions,
+    normals, UVs, bone links and weights); exporting the parsed mesh writes the same bytes.  Material name symbolic (ASCII,
+    exact length; n == -1: constant), third bone's name by symbolic index, single/multiple bone links, with/without triangles."""
+    import srctools.smd as smd
+    from srctools.math import Angle, Vec
+    the_mat = _slot(mat, n, "models/props/metal_box")
+    if n >= 0:
+        # what a line-oriented format without quoting can carry as a material name (see the report)
+        assume(all([(ord(ch) > 32) & (ord(ch) < 127) for ch in the_mat]))
+        _none_of(the_mat, "#;.")
+        assume(n > 0 and the_mat != "end" and the_mat[n - 1] != "\\" and the_mat[n - 1] != "/")
+        for i in range(n - 1):
+            assume(not (the_mat[i] == "/" and the_mat[i + 1] == "/"))
+    if not has_tri:
+        assume(not multi and n < 0)
+    root = smd.Bone("root", None)
+    arm = smd.Bone("Arm_L", root)
+    hand = smd.Bone(pick(SMD_BONES[1:], bone_i), arm)
+    bones = [root, arm, hand]
+    def frame(k):
+        return [smd.BoneFrame(b, Vec(1.5 * k, -2.25, i), Angle(0.0, 0.0, 0.0)) for i, b in enumerate(bones)]
+    anim = {0: frame(0)}
+    if two_frames:
+        anim[7] = frame(1)
+        anim[3] = frame(2)
+
+    def vert(i):
+        links = [(arm, 0.75), (hand, 0.25)] if multi and i != 1 else [(hand if i == 2 else root, 1.0)]
+        return smd.Vertex(Vec(16.0 * i, -8.5, 0.125), Vec(0.0, 0.0, 1.0), 0.5, 0.25 * i, links)
+    tris = [smd.Triangle(the_mat, vert(0), vert(1), vert(2)), smd.Triangle("tools/toolsnodraw", vert(2), vert(1), vert(0))] if has_tri else []
+    mesh = smd.Mesh({b.name: b for b in bones}, anim, tris)
+    sink = ChunkSink()
+    mesh.export(sink)
+    try:
+        got = smd.Mesh.parse_smd(_byte_lines(sink.parts))
+    except Exception as e:
+        raise Fail(f"exported SMD does not parse: {type(e).__name__}: {e}")
+    check(sorted(got.bones) == sorted(b.name for b in bones), "bone names", list(got.bones))
+    for b in bones:
+        g = got.bones[b.name]
+        check(g.name == b.name, "bone name", g.name)
+        check((g.parent.name if g.parent else None) == (b.parent.name if b.parent else None), "bone parent", b.name)
+    check(sorted(got.animation) == sorted(anim), "frame times", list(got.animation))
+    for t, fr in anim.items():
+        gf = got.animation[t]
+        check(len(gf) == len(fr), "frame size", t)
+        for a, w in zip(gf, fr):
+            check(a.bone.name == w.bone.name and a.position == w.position and a.rotation == w.rotation, "bone frame", t, w.bone.name)
+    check(len(got.triangles) == len(tris), "triangle count", len(got.triangles))
+    for gt, wt in zip(got.triangles, tris):
+        _str_eq(gt.mat, wt.mat, "triangle material")
+        for gv, wv in zip(gt, wt):
+            check(gv.pos == wv.pos and gv.norm == wv.norm and gv.tex_u == wv.tex_u and gv.tex_v == wv.tex_v, "vertex", gv, wv)
+            check(len(gv.links) == len(wv.links), "vertex link count", len(gv.links), len(wv.links))
+            for (gb, gw), (wb, ww) in zip(gv.links, wv.links):
+                check(gb.name == wb.name and gw == ww, "vertex link", gb.name, gw, wb.name, ww)
+    sink2 = ChunkSink()
+    got.export(sink2)
+    check(len(sink2.parts) == len(sink.parts), "smd: number of writes differs")
+    for a, b in zip(sink.parts, sink2.parts):
+        check(len(a) == len(b), "smd: second generation output differs (length)", a, b)
+        check(a == b, "smd: second generation output differs", a, b)
+
+
+def h_smd_witness(mat: str, multi: bool, has_tri: bool, two_frames: bool, bone_i: int, n: int) -> None:
+    h_smd(mat, multi, has_tri, two_frames, bone_i, n)
+    raise Fail("reached")
+
+
+# ------------------------------------------------------------------------------------------------------------
+# PCF particles (on DMX)
+# ------------------------------------------------------------------------------------------------------------
+
+PCF_NAMES = ["sys_A", "Child One", "fx/spark"]
+PCF_ATTR_NAMES = ["max_particles", "Visibility Proxy Radius", "material"]     # attribute names are keys: by index
+
+
+def _pcf_sig(p, fold_attr_names):
+    """Everything a Particle holds, as nested lists (attribute keys are not part of the value: export only uses .values())."""
+    def attrs_of(d):
+        out = []
+        for a in d.values():
+            if a.name.casefold() == "name":       # the element's own name travels as the attribute 'name' (see the report)
+                continue
+            out.append([a.name.casefold() if fold_attr_names else a.name, a.type.name, a.is_array,
+                        [str(x) for x in a.iter_str()] if a.is_array else a.val_str])
+        return out
+
+    def ops(lst):
+        return [[o.name, o.function, attrs_of(o.options)] for o in lst]
+    return [p.name, attrs_of(p.options), ops(p.renderers), ops(p.operators), ops(p.initializers), ops(p.emitters), ops(p.forces),
+            ops(p.constraints), [c.particle.casefold() for c in p.children]]
+
+
+def h_pcf(fn: str, sval: str, child_b: bool, child_c: bool, back_ref: bool, has_ops: bool, attr_i: int, n_fn: int, n_sv: int,
+          version: int = 2, binary: int = 0, fold: int = 0) -> None:
+    """Particle.export -> DMX element tree [-> Element.export_binary -> bytes] -> Particle.parse gives equal particle systems
+    (name, options, the six operator lists with names / function names / options, child references modulo case); exporting the
+    parsed systems gives an equal tree (binary: identical bytes).  Function name and one string option value symbolic in the
+    element route; system / attribute names by index (they are dict keys); the binary route is all by index."""
+    import io
+    import srctools.particles as pt
+    from srctools.dmx import Attribute, Element
+    the_fn = _slot(fn, n_fn, "emit_continuously")
+    the_sv = _slot(sval, n_sv, "particle/smoke1/smoke1.vmt")
+    an = pick(PCF_ATTR_NAMES, attr_i)
+    if binary:
+        assume(n_fn < 0 and n_sv < 0)
+
+    def build():
+        def op(name, function, **extra):
+            opts = {"x": Attribute.float("emission_rate", 2.5), "y": Attribute.string(an, the_sv), "z": Attribute.bool("operator end cap", True)}
+            opts.update({k: Attribute.int(k, v) for k, v in extra.items()})
+            return pt.Operator(name, function, opts)
+        a = pt.Particle(PCF_NAMES[0], options={an.casefold(): Attribute.string(an, the_sv), "n": Attribute.int("initial_particles", 3),
+                                              "c": Attribute.color("color", 255, 128, 0, 255)})
+        b = pt.Particle(PCF_NAMES[1])
+        c = pt.Particle(PCF_NAMES[2], options={"r": Attribute.float("radius", 0.5)})
+        if has_ops:
+            a.emitters.append(op("Emitter One", the_fn))
+            a.renderers.append(op("render_animated_sprites", "render_animated_sprites", orientation_type=2))
+            a.operators.extend([op("Alpha Fade", "Alpha Fade and Decay"), op("", the_fn)])
+            c.initializers.append(op("Position Within Sphere Random", "Position Within Sphere Random"))
+            c.forces.append(op("pull", "Pull towards control point"))
+            c.constraints.append(op("Constrain", "Constrain distance to control point"))
+        if child_b:
+            a.children.append(pt.Child(PCF_NAMES[1]))
+        if child_c:
+            a.children.append(pt.Child(PCF_NAMES[2].upper()))
+            a.children.append(pt.Child(PCF_NAMES[2]))
+        if back_ref:
+            c.children.append(pt.Child(PCF_NAMES[0]))
+        return [a, b, c]
+
+    def run():
+        origs = build()
+        root = pt.Particle.export(origs)
+        if binary:
+            buf = io.BytesIO()
+            root.export_binary(buf, version=binary, fmt_name=pt.FORMAT_NAME, fmt_ver=version)
+            first = buf.getvalue()
+            table = pt.Particle.parse(io.BytesIO(first))
+        else:
+            first = None
+            table = pt.Particle.parse(root, version)
+        check(list(table) == [nm.casefold() for nm in PCF_NAMES], "system names", list(table))
+        gots = list(table.values())
+        for g, w in zip(gots, origs):
+            _deep_eq(_pcf_sig(g, fold), _pcf_sig(w, fold), "particle " + w.name)
+        root2 = pt.Particle.export(gots)
+        if binary:
+            buf2 = io.BytesIO()
+            root2.export_binary(buf2, version=binary, fmt_name=pt.FORMAT_NAME, fmt_ver=version)
+            # element UUIDs are fresh per export: compare through a second parse instead of the bytes
+            again = list(pt.Particle.parse(io.BytesIO(buf2.getvalue())).values())
+        else:
+            again = list(pt.Particle.parse(root2, version).values())
+        for g, w in zip(again, gots):
+            _deep_eq(_pcf_sig(g, 0), _pcf_sig(w, 0), "second generation " + w.name)
+
+    if binary and _ENGINE == "chx":
+        from crosshair.tracers import NoTracing
+        with NoTracing():          # every value is concrete here (picks): run the real DMX codec natively
+            run()
+    else:
+        run()
+
+
+def h_pcf_witness(fn: str, sval: str, child_b: bool, child_c: bool, back_ref: bool, has_ops: bool, attr_i: int, n_fn: int, n_sv: int,
+                  version: int = 2, binary: int = 0, fold: int = 0) -> None:
+    h_pcf(fn, sval, child_b, child_c, back_ref, has_ops, attr_i, n_fn, n_sv, version, binary, fold)
+    raise Fail("reached")
+
+
+# ------------------------------------------------------------------------------------------------------------
 # obligations
 # ------------------------------------------------------------------------------------------------------------
 
@@ -969,4 +1235,95 @@ def obligations(tier):
                     bound="1 top-level event of any of the 19 kinds + 1 actor with 2 channels; 9 symbolic bools + caption type explored in 3 groups (kinds/speak/flags), "
                           "1 symbolic pool string used in 4 slots; quantised values concrete (k/255 exact representatives)"))
     obls.append(Obl("bvcd.witness", MOD, "h_bvcd_witness", slices=sl[:1], budget_s=120, per_path_s=60, witness=True, desc="reachability twin"))
+    obls += _text_obligations(quick)
+    return obls
+
+
+# proposed known findings (see reports/C20.md, "Extension: text formats"); VF_C20_EMULATE_KNOWN=1 applies their regions the way
+# vf.core does for an open entry of known_findings.json (development aid: off by default, nothing is special-cased otherwise)
+KNOWN_REGIONS = {
+    "snd.stack": "len(sval) == n_sval and has_escapable(sval)",
+    "vmt.blocks": "len(bval) == n_bv and has_escapable(bval)",
+}
+
+
+def _text_obligations(quick):
+    import os
+    emulate = os.environ.get("VF_C20_EMULATE_KNOWN") == "1"
+
+    def known(name, slices):
+        return [dict(x, _exclude=[KNOWN_REGIONS[name]]) for x in slices] if emulate else slices
+    obls = []
+    # --- soundscripts
+    base = {"n_name": -1, "n_wav": -1, "n_sval": -1}
+    sl = [dict(base, n_name=1), dict(base, n_wav=1), dict(base, n_name=0, n_wav=0), dict(base, n_wav=2, nwav=2), dict(base, n_wav=1, nwav=3)]
+    sl += [dict(base, nwav=k) for k in (0, 2)]
+    sl += [dict(base, dim=d) for d in ("chan", "level", "volume", "pitch")]
+    sl += [dict(base, stacks=1), dict(base, stacks=1, nwav=0)]
+    if not quick:
+        sl += [dict(base, n_name=1, n_wav=1), dict(base, n_name=2), dict(base, n_wav=3, nwav=2), dict(base, dim="chan", stacks=1, nwav=2)]
+        sl += [dict(base, dim=d, nwav=2) for d in ("level", "volume", "pitch")]
+    obls.append(Obl("snd.roundtrip", MOD, "h_snd", slices=sl, budget_s=600, per_path_s=90,
+                    desc="Sound.export -> Keyvalues.parse(allow_escapes=False) -> Sound.parse/parse_one equal field by field; second export identical",
+                    bound="2 sounds per file; name / wave symbolic over every code point at exact length 0-2 (3 thorough); channel (10 members + 4 "
+                          "ints), level (30 members + 5 pairs), volume (7), pitch (8) by index one dimension at a time; 0-3 waves; force_v2 and "
+                          "the three operator stacks symbolic"))
+    sl = known("snd.stack", [dict(base, n_sval=1, stacks=1), dict(base, n_sval=0, stacks=1)] + ([] if quick else [dict(base, n_sval=2, stacks=1)]))
+    obls.append(Obl("snd.stack", MOD, "h_snd", slices=sl, budget_s=600, per_path_s=90,
+                    desc="same with a symbolic operator-stack leaf value (written through Keyvalues.serialise)", bound="leaf of exact length 0-1 (2 thorough)"))
+    sl = [dict(base, n_sval=1, stacks=1, esc=1), dict(base, n_wav=1, esc=1)] + ([] if quick else [dict(base, n_name=1, n_wav=1, esc=1)])
+    obls.append(Obl("snd.escaped_reader", MOD, "h_snd", slices=sl, budget_s=600, per_path_s=90,
+                    desc="same file read by the default Keyvalues.parse (escape processing on, as packlist does for soundscripts embedded in a BSP); "
+                         "name/waves without backslash, stack leaf unconstrained", bound="exact length 1"))
+    obls.append(Obl("snd.witness", MOD, "h_snd_witness", slices=[dict(base, n_wav=1), dict(base, stacks=1), dict(base, n_sval=1, stacks=1, esc=1)],
+                    budget_s=120, per_path_s=60, witness=True, desc="reachability twin"))
+    # --- VMT
+    base = {"n_sh": -1, "n_pn": -1, "n_pv": -1, "n_bv": -1}
+    sl = [dict(base), dict(base, n_pv=1), dict(base, n_sh=1), dict(base, n_pn=0, n_pv=0), dict(base, n_pv=1, npar=1), dict(base, npar=0)]
+    if not quick:
+        sl += [dict(base, n_pv=2), dict(base, n_sh=2), dict(base, n_pn=1, npar=1), dict(base, n_sh=1, n_pv=1)]
+    obls.append(Obl("vmt.roundtrip", MOD, "h_vmt", slices=sl, budget_s=600 if quick else 2400, per_path_s=120,
+                    desc="Material.export -> Material.parse: shader, parameters (name case, value, order, lookup), blocks, proxies; second export identical",
+                    bound="5 parameters (1 symbolic), optional fallback block (nested) and proxies; shader / value symbolic over every code point "
+                          "at exact length 0-1 (2 thorough); parameter name: empty (quick), ASCII length 1 (thorough)"))
+    sl = known("vmt.blocks", [dict(base, n_bv=1), dict(base, n_bv=0)] + ([] if quick else [dict(base, n_bv=2)]))
+    obls.append(Obl("vmt.blocks", MOD, "h_vmt", slices=sl, budget_s=600, per_path_s=90,
+                    desc="same with a symbolic leaf value inside a fallback block and a proxy (written through Keyvalues.serialise)",
+                    bound="leaf of exact length 0-1 (2 thorough)"))
+    obls.append(Obl("vmt.witness", MOD, "h_vmt_witness", slices=[dict(base, n_pv=1), dict(base, n_sh=1)], budget_s=120, per_path_s=60,
+                    witness=True, desc="reachability twin"))
+    # --- choreo text
+    sl = [{"n": -1, "mode": "kinds", "flag_i": 4}, {"n": -1, "mode": "speak", "flag_i": 1}, {"n": -1, "mode": "flags", "flag_i": 3}]
+    sl += [{"n": 1, "mode": "str", "slot": k, "flag_i": 4} for k in VCD_SLOTS]
+    sl += [{"n": 0, "mode": "str", "slot": k, "flag_i": 0} for k in ("ev_name", "param", "cc_token", "map_name")]
+    sl += [{"n": 1, "mode": "str", "slot": "scale_val", "flag_i": 0, "skey": k} for k in (1, 2)]
+    if not quick:
+        sl += [{"n": 2, "mode": "str", "slot": k, "flag_i": 0} for k in VCD_SLOTS]
+        sl += [{"n": -1, "mode": m, "flag_i": f} for m in ("kinds", "speak", "flags") for f in (0, 2)]
+    obls.append(Obl("vcd.roundtrip", MOD, "h_vcd", slices=sl, budget_s=600, per_path_s=90,
+                    desc="Scene.export_text -> Tokenizer -> Scene.parse_text field by field (attrs recursion); second export identical",
+                    bound="1 top-level event of any of the 19 kinds + 1 actor with 2 channels; optional relative tag / ramp with edges; caption type "
+                          "x 3 speak flags; activity, snap, ignore-phonemes, tag lock bits; one symbolic string (every code point, exact length "
+                          "0-1, 2 thorough) in each of 16 slots; 3 scale-setting keys; no flex animation tracks"))
+    obls.append(Obl("vcd.witness", MOD, "h_vcd_witness", slices=[sl[0], sl[3]], budget_s=120, per_path_s=60, witness=True, desc="reachability twin"))
+    # --- SMD
+    sl = [{"n": -1}, {"n": 1}, {"n": 2}] + ([] if quick else [{"n": 3}, {"n": 4}])
+    obls.append(Obl("smd.roundtrip", MOD, "h_smd", slices=sl, budget_s=600, per_path_s=90,
+                    desc="Mesh.export -> Mesh.parse_smd: bones, parents, frames, triangles, links and weights; second export identical",
+                    bound="3 bones (third name from 5 by index), 1 or 3 frames, 0 or 2 triangles, 1 or 2 links per vertex; material name symbolic "
+                          "printable ASCII of exact length 1-2 (3-4 thorough) inside the representable domain; floats with <= 6 decimals, rotations 0"))
+    obls.append(Obl("smd.witness", MOD, "h_smd_witness", slices=[{"n": 1}], budget_s=120, per_path_s=60, witness=True, desc="reachability twin"))
+    # --- PCF
+    base = {"n_fn": -1, "n_sv": -1}
+    sl = [dict(base), dict(base, n_fn=1), dict(base, n_sv=1), dict(base, n_fn=0, n_sv=0, version=1)]
+    sl += [dict(base, binary=b, version=v) for b, v in ((2, 1), (5, 2))]
+    if not quick:
+        sl += [dict(base, n_fn=2, n_sv=2), dict(base, n_fn=1, n_sv=1, version=1)] + [dict(base, binary=b, version=2) for b in (1, 3, 4)]
+    obls.append(Obl("pcf.roundtrip", MOD, "h_pcf", slices=sl, budget_s=600, per_path_s=90,
+                    desc="Particle.export -> element tree [-> binary DMX] -> Particle.parse: names, options, six operator lists, children; second generation equal",
+                    bound="3 systems, 0 or 7 operators, child references in 4 symbolic bits (incl. a case variant and a cycle), attribute name 1 of 3 by "
+                          "index; function name and a string option symbolic (every code point, exact length 0-1, 2 thorough) in the element route; "
+                          "binary DMX versions 2/5 (1-5 thorough) with everything by index (enumeration)"))
+    obls.append(Obl("pcf.witness", MOD, "h_pcf_witness", slices=[dict(base, n_sv=1), dict(base, binary=5)], budget_s=120, per_path_s=60,
+                    witness=True, desc="reachability twin"))
     return obls
